@@ -38,6 +38,7 @@ let parse_op s = match split ',' s with
   | ["D"; i] -> ODecrypt (nat_of_int (int_of_string i))
   | ["O"] -> OExport
   | ["I"] -> OReimport
+  | ["A"; ms; chk] -> OAddSub ((if ms = "-" || ms = "" then [] else List.map z_of_hexnum (split ':' ms)), bytes_of_hex chk)   (* A,mpi:mpi..,chk *)
   | _ -> failwith ("bad op " ^ s)
 let s_obs = function
   | BDone -> "done" | BWarned -> "warned" | BRaised k -> "raised" ^ hexnum_of_z k | BNoScope -> "noscope"
